@@ -170,3 +170,13 @@ def runsMetricNoReset (st : MPlanState) (q : MetricQuery) : List MCtx → List S
   | c :: cs => let r := processMetricFrom st c q; r.2 :: runsMetricNoReset r.1 q cs
 
 end Qryn.LogQL
+
+namespace Qryn.LogQL
+open Qryn Qryn.Sql
+/-- a WITH sub-query whose FROM is `<its own alias> as …`: a statement ClickHouse cannot resolve -/
+def selfRefWith (s : Sel) : Bool :=
+  s.withs.any (fun w =>
+    match w.2 with
+    | .mk _ _ _ (some (.col (.withRef a) _)) _ _ _ _ _ _ _ => a == w.1
+    | _ => false)
+end Qryn.LogQL
